@@ -60,4 +60,14 @@ struct Dump {
     void buffer(const osmium::memory::Buffer& b) {
         for (const auto& item : b) entity(item);
     }
+    // traversal of a copy of the committed bytes that lives in a heap block of exactly that size: a traversal that leaves the
+    // delivered data (instead of just reading slack space of a large internal buffer) becomes an out-of-bounds access
+    void buffer_exact(const osmium::memory::Buffer& b) {
+        const std::size_t n = b.committed();
+        if (n == 0) return;
+        unsigned char* copy = new unsigned char[n];
+        std::memcpy(copy, b.data(), n);
+        { osmium::memory::Buffer view{copy, n, n}; buffer(view); }
+        delete[] copy;
+    }
 };
